@@ -115,7 +115,7 @@ def tlc(module, cfg, workdir, workers=4, env=None, timeout=3600, extra=(), java_
     """Runs TLC on spec/<module>.tla with spec/<cfg> in a scratch metadir; returns stdout."""
     os.makedirs(workdir, exist_ok=True)
     md = os.path.join(workdir, "md-%d-%d" % (os.getpid(), int(time.time() * 1000) % 100000))
-    cmd = ["java", "-XX:+UseParallelGC", "-Xmx" + heap] + java_opts.split() + ["-cp", TLA_JAR, "tlc2.TLC",
+    cmd = ["java", "-XX:+UseParallelGC", "-Xss1g", "-Xmx" + heap] + java_opts.split() + ["-cp", TLA_JAR, "tlc2.TLC",
            "-workers", str(workers), "-metadir", md, "-cleanup", "-noGenerateSpecTE",
            "-config", os.path.join(SPEC, cfg)] + list(extra) + [os.path.join(SPEC, module + ".tla")]
     r = run(cmd, cwd=SPEC, env=env, timeout=timeout)
